@@ -898,6 +898,13 @@ def run(ctx):
         resC = core.run_cases(f"C17C{os.getpid()}", HEADER, termsC, chunk=8)
         for c, mout in zip(keepC, resC):
             ctx.cov["correspondence_cases"] += 1
+            if mout != c["text"] and fmt4_tie_only(c["text"], mout, c["lines"]):
+                # an exact x.xxxx5 tie of cglen/fglen: '%.4f' of the binary64 value and of the exact
+                # rational legitimately fall on different sides (same class as the int() boundaries)
+                nbound += 1
+                ctx.count("rounding-boundary-excluded")
+                ctx.cov["rounding_boundary_excluded"] = nbound
+                continue
             if mout != c["text"]:
                 ctx.cov["correspondence_disagreements"] += 1
                 corr_broken = True
@@ -1017,6 +1024,31 @@ def summ(impl):
     if impl["status"] != "OK":
         return impl["status"]
     return {k: impl[k] for k in ("gotatom", "gothet", "ngrid", "center")}
+
+
+def fmt4_tie_only(impl_text, model_text, lines):
+    """True iff the two .in texts differ only in cglen/fglen numbers by one unit of the 4th
+    decimal, and each such number of the implementation sits (within 1e-9) on a x.xxxx5 tie."""
+    A, B = impl_text.split("\n"), model_text.split("\n")
+    if len(A) != len(B):
+        return False
+    size = run_impl(lines, dict(DEFAULTS), True)
+    if size["status"] != "OK":
+        return False
+    vals = {"cglen": size["coarse"], "fglen": size["fine"]}
+    for la, lb in zip(A, B):
+        if la == lb:
+            continue
+        wa, wb = la.split(), lb.split()
+        if len(wa) != 4 or len(wb) != 4 or wa[0] != wb[0] or wa[0] not in vals:
+            return False
+        for i in range(3):
+            if wa[1 + i] == wb[1 + i]:
+                continue
+            v = vals[wa[0]][i] * 1e4
+            if abs(float(wa[1 + i]) - float(wb[1 + i])) > 1.0001e-4 or abs(v - math.floor(v) - 0.5) > 1e-5:
+                return False
+    return True
 
 
 def first_diff(a, b):
